@@ -159,6 +159,13 @@ def _filesink(d, w, path):
     return None
 
 
+def _raise_odd(kind):
+    raise ModelProcessorError({"unicode_decode": "UnicodeDecodeError", "unicode_encode": "UnicodeEncodeError",
+                               "exception_group": "ExceptionGroup", "os_error": "FileNotFoundError",
+                               "key_error_tuple": "KeyError", "stop_iteration": "StopIteration",
+                               "empty_message": "ValueError", "two_arg_custom": "VTwoArgError"}.get(kind, "ZeroDivisionError"), incidental=False)
+
+
 COMPONENTS: dict[str, Comp] = {}
 
 
@@ -181,6 +188,7 @@ _c("VMulDefault", "op", "Float", "Float", [("factor", 2.0)], lambda d, w, factor
 _c("VAdd", "op", "Float", "Float", [("addend", REQ)], lambda d, w, addend: d + addend)
 _c("VAddDefault", "op", "Float", "Float", [("addend", 1.0)], lambda d, w, addend=1.0: d + addend)
 _c("VAffine", "op", "Float", "Float", [("a", REQ), ("b", 0.5)], lambda d, w, a, b=0.5: a * d + b)
+_c("VPoly", "op", "Float", "Float", [("p", REQ), ("q", REQ), ("r", REQ), ("s", 0.0)], lambda d, w, p, q, r, s=0.0: p * d + q + r + s)
 _c("VAddNote", "op", "Float", "Float", [("addend", 1.0)], _addnote, created=("note",))
 _c("VCollSum", "op", "Coll", "Float", [("offset", 0.0)], lambda d, w, offset=0.0: float(sum(d)) + offset)
 _c("FloatSquareOperation", "op", "Float", "Float", [], lambda d, w: d ** 2, recorded=False)
@@ -198,17 +206,21 @@ _c("FloatCollectValueProbe", "probe", "Float", None, [], lambda d, w: d, recorde
 _c("CopyDataProbe", "probe", "Any", None, [], lambda d, w: as_data_object(d), recorded=False)
 # context processors
 _c("VCtxScale", "ctx", "Any", None, [("base", REQ), ("k", 3.0)], _ctxscale, created=("scaled",))
+_c("VCtxMeta", "ctx", "Any", None, [("vmeta", None)], lambda d, w, vmeta=None: None)
 _c("VCtxBadWriter", "ctx", "Any", None, [], _badwrite, created=("declared_only",), fault="undeclared_write")
 _c("VCtxBoom", "ctx", "Any", None, [("fuse", 1.0)], lambda d, w, fuse=1.0: _boom(d, w, fuse), fault="boom")
 _c("VCtxInterrupt", "ctx", "Any", None, [], _abort, fault="abort")
 # sinks
 _c("VFileSink", "sink", "Float", "Float", [("path", REQ)], _filesink)
 _c("VNullSink", "sink", "Float", "Float", [("tag", "t")], lambda d, w, tag="t": None)
+_c("VLedgerSink", "sink", "Float", "Float", [("tag", "t")], lambda d, w, tag="t": None)
+_c("VReplaySrc", "source", "NoData", "Float", [("value", 7.0)], lambda d, w, value=7.0: float(value))
 _c("FloatDataSink", "sink", "Float", "Float", [], lambda d, w: None, recorded=False)
 _c("FloatTxtFileSaver", "sink", "Float", "Float", [("path", REQ)], lambda d, w, path: None, recorded=False)
 # faults
 _c("VBadWriter", "op", "Float", "Float", [], _badwrite, created=("declared_only",), fault="undeclared_write")
 _c("VBoom", "op", "Float", "Float", [("fuse", 1.0)], _boom, fault="boom")
+_c("VRaise", "op", "Float", "Float", [("exc", "zero_division")], lambda d, w, exc="zero_division": _raise_odd(exc), fault="raise")
 _c("VInterrupt", "op", "Float", "Float", [], _abort, fault="abort")
 _c("VBadType", "op", "Float", "Float", [], lambda d, w: [d], fault="badtype")
 
